@@ -15,6 +15,9 @@ import Mamba.Drv.C03
 import Mamba.Drv.C04
 import Mamba.Drv.C11
 import Mamba.Drv.C12
+import Mamba.Drv.C15
+import Mamba.Drv.C01
+import Mamba.Drv.C02
 
 namespace Drv
 
@@ -60,6 +63,14 @@ def dispatch (line : String) : String :=
   | "gob" :: args => C12.handleGob args
   | "gobdec" :: args => C12.handleGobDec args
   | "varint" :: args => C12.handleVarint args
+  | "it" :: args => C15.handle args
+  | "canon" :: args => C01.handleCanon args
+  | "canonx" :: _ => "skip"
+  | "canon2" :: args => C01.handleCanon2 args
+  | "aut" :: args => C02.handleAut args
+  | "autx" :: _ => "skip"
+  | "hist" :: args => C02.handleHist args
+  | "autchk" :: args => C02.handleChk args
   | _ => "bad-op"
 
 end Drv
